@@ -351,6 +351,14 @@ func NewManager(
 		return nil, err
 	}
 
+	// No block exists below the initial height, so nothing below it can be awaiting
+	// submission: without this a chain with InitialHeight > 1 tries to fetch block 1 on
+	// every submission attempt and counts the missing heights as pending forever.
+	if genesis.InitialHeight > 1 {
+		pendingHeaders.base.lastHeight.CompareAndSwap(0, genesis.InitialHeight-1)
+		pendingData.base.lastHeight.CompareAndSwap(0, genesis.InitialHeight-1)
+	}
+
 	// If lastBatchHash is not set, retrieve the last batch hash from store
 	lastBatchDataBytes, err := store.GetMetadata(ctx, storepkg.LastBatchDataKey)
 	if err != nil && s.LastBlockHeight > 0 {
